@@ -49,7 +49,13 @@ class MethodDescriptor(metaclass=ABCMeta):
 
     def __get__(self, instance: Any, spec_cls: Type = None) -> Callable:
         if self.dissolve:
-            setattr(spec_cls, self.name, self.method)
+            # Replace this descriptor where it lives. The class through which
+            # it was reached may be a subclass with its own definition of this
+            # name (calling `super().<name>(...)`), which must stay in place.
+            for klass in getattr(spec_cls, "__mro__", ()):
+                if klass.__dict__.get(self.name) is self:
+                    setattr(klass, self.name, self.method)
+                    break
         if instance is not None:
             return types.MethodType(self.method, instance)
         return self.method
